@@ -96,6 +96,8 @@ func do(f func()) bool {
 
 type crashScript struct {
 	psize int
+	older []*Version // superseded versions (same name as an entry of files)
+	multi map[string]bool
 	files []*Version
 	reqs  [][]PartSpec
 	polls []int // after request i poll file polls[i] (-1: none)
@@ -133,11 +135,63 @@ func genCrashScript(t *vt.T, s *Scenario) *crashScript {
 			cs.polls = append(cs.polls, -1)
 		}
 	}
+	// a new version of a chained file arrives after the first one (which is
+	// then typically held, validated, for its predecessor)
+	cs.multi = map[string]bool{}
+	if n > 1 && t.Weighted("newVersion", 2, 1) == 1 {
+		i := 1 + t.Pick("newVersionOf", n-1)
+		old := cs.files[i]
+		if old.Prev != "" {
+			v2 := &Version{Name: old.Name, Prev: old.Prev, Renamed: old.Renamed, Data: s.newContent(s.psize*t.IntRange("v2parts", 1, 3) + 1), Time: old.Time.Add(time.Hour)}
+			cs.older = append(cs.older, old)
+			cs.files[i] = v2
+			cs.multi[old.Name] = true
+			// order: the first version completely (it is then held for its
+			// predecessor), the new version, and only then everything else
+			var first, rest [][]PartSpec
+			for _, rq := range cs.reqs {
+				var a, b []PartSpec
+				for _, p := range rq {
+					if p.V == old {
+						a = append(a, p)
+					} else {
+						b = append(b, p)
+					}
+				}
+				if len(a) > 0 {
+					first = append(first, a)
+				}
+				if len(b) > 0 {
+					rest = append(rest, b)
+				}
+			}
+			cs.reqs = first
+			for _, p := range tile(v2, s.psize) {
+				cs.reqs = append(cs.reqs, []PartSpec{p})
+			}
+			cs.reqs = append(cs.reqs, rest...)
+			cs.polls = make([]int, len(cs.reqs))
+			for i := range cs.polls {
+				cs.polls[i] = -1
+			}
+			t.Class("new-version-while-held")
+			t.Note("new version of %s size=%d", v2.Name, v2.Size())
+		}
+	}
 	// retransmissions: some parts arrive again later
 	nd := t.IntRange("nDupRequests", 0, 2)
 	for i := 0; i < nd; i++ {
 		at := t.IntRange("dupAt", 1, len(cs.reqs))
 		ps := pool[t.Pick("dupPart", len(pool))]
+		superseded := false
+		for _, o := range cs.older {
+			if ps.V == o {
+				superseded = true // a late copy of a version that a newer one has replaced would be a content revert
+			}
+		}
+		if superseded {
+			continue
+		}
 		if t.Bool("dupWholeFile") {
 			cs.reqs = append(cs.reqs[:at], append([][]PartSpec{tile(ps.V, s.psize)}, cs.reqs[at:]...)...)
 		} else {
@@ -161,6 +215,9 @@ type crashRun struct {
 func newCrashRun(t *vt.T, cs *crashScript, psize int) *crashRun {
 	w := NewWorld(t, "C06")
 	s := &Scenario{w: w, t: t, p: Profile{Prop: "C06"}, psize: psize}
+	for _, v := range cs.older {
+		w.AddVersion(v)
+	}
 	for _, v := range cs.files {
 		w.AddVersion(v)
 		s.files = append(s.files, &fileState{cur: v, parts: tile(v, psize)})
@@ -266,6 +323,11 @@ func (r *crashRun) checkRecovered(when string) {
 	}
 	stage := w.StageFiles()
 	for _, v := range r.cs.files {
+		if r.cs.multi[v.Name] {
+			// two versions of this name are in play; the status poll answers
+			// by name only, so only the arrival-based clauses are judged
+			continue
+		}
 		st := w.Poll(v)
 		delivered := w.arrivedCount(v) > 0
 		_, hasWait := stage[v.Name+".wait"]
@@ -294,7 +356,7 @@ func (r *crashRun) checkRecovered(when string) {
 			}
 			w.viol("C06", key, "%s: %s polls as %s but is neither delivered nor held validated (stage %v, final %v)", when, v.Name, statusName(st), keysOf(stage), final)
 		}
-		if r.positive[v.Name] {
+		if r.positive[v.Name] && !r.cs.multi[v.Name] {
 			w.viol("C06", "validated-file-lost-by-crash", "%s: %s was reported %s before the crash; afterwards it is neither delivered nor held validated (stage %v, final %v)",
 				when, v.Name, "passed/waiting", keysOf(stage), final)
 		}
@@ -342,7 +404,7 @@ func (r *crashRun) resume() {
 				continue
 			}
 			st := w.Poll(v)
-			if st == sts.ConfirmPassed || st == sts.ConfirmWaiting {
+			if (st == sts.ConfirmPassed || st == sts.ConfirmWaiting) && !r.cs.multi[v.Name] {
 				continue
 			}
 			held := listed[v.key()]
@@ -402,6 +464,17 @@ func propCrash(t *vt.T) {
 		m := t.IntRange("nCrashPoints", 1, 4)
 		for i := 0; i < m; i++ {
 			ks = append(ks, t.IntRange("crashAt", 1, n))
+		}
+		// the windows "complete but not yet validated" and "validated but not
+		// yet delivered" are narrow; aim at them explicitly now and then
+		var narrow []int
+		for i, l := range labels {
+			if strings.HasPrefix(l, "stage.process:") || strings.HasPrefix(l, "fileutil.ReadableMD5") || strings.HasPrefix(l, "stage.putFileAway:") || strings.HasPrefix(l, "fileutil.Move:") {
+				narrow = append(narrow, i+1)
+			}
+		}
+		if len(narrow) > 0 && t.Weighted("aimAtNarrowWindow", 1, 1) == 1 {
+			ks = append(ks, narrow[t.Pick("narrowIdx", len(narrow))])
 		}
 	}
 	for _, k := range ks {
